@@ -240,14 +240,6 @@ def document(input_file: str, settings: Settings):
                     else:
                         subdirs.remove(subdir)
 
-                # Check if files in current dir contain .cmake
-                # If not, ignore this dir and continue walking
-                for filename in filenames:
-                    if filename.endswith(".cmake"):
-                        break
-                else:
-                    continue
-
             # Sort filenames and subdirs in alphabetical order
             filenames = sorted(filenames)
             subdirs = sorted(subdirs)
